@@ -24,6 +24,7 @@ type frame struct {
 	con     *Contract
 	params  map[string]Val
 	rets    []retInfo
+	cellGuard map[ssa.Value]*GuardTag // local cells (result slots, captured locals) holding an object read out of a guarded map
 	loops   map[*ssa.BasicBlock]*loopInfo
 	entrySt *State
 	iters   map[ssa.Value]*mapIter
@@ -348,7 +349,14 @@ func (e *Exec) runFunc(fn *ssa.Function, args []Val, freeVars []Val, st0 *State,
 				if vals[i].T == "" || v.T == "" {
 					panic(execAbort{"phi of address values in " + fn.String()})
 				}
+				g := v.Guard
+				if g == nil || !g.Elem {
+					g = vals[i].Guard
+				}
 				v = Val{T: ite(conds[i], vals[i].T, v.T), Ty: v.Ty, Clo: nil}
+				if g != nil && g.Elem {
+					v.Guard = g
+				}
 			}
 			if len(vals) == 1 {
 				v = vals[0]
@@ -405,7 +413,14 @@ func (e *Exec) runFunc(fn *ssa.Function, args []Val, freeVars []Val, st0 *State,
 			if o.Clo == nil || clo == nil || o.Clo.Fn != clo.Fn {
 				clo = nil
 			}
+			g := v.Guard
+			if g == nil || !g.Elem {
+				g = o.Guard
+			}
 			v = Val{T: ite(f.rets[i].cond, o.T, v.T), Ty: v.Ty, Clo: clo}
+			if g != nil && g.Elem {
+				v.Guard = g // an object read out of a guarded map stays guarded on whichever path it is returned
+			}
 		}
 		e.ensureSortDecl(v.Ty)
 		v.T = e.defOrInline(e.S.freshName(f.prefix+"ret"), v.Ty.Sort(), v.T)
